@@ -321,3 +321,162 @@ Proof.
   pose proof (Hm _ H1) as M. rewrite (asc_value _ _ _ _ _ HH z Hz), (asc_value _ _ _ _ _ HH _ H1) in M.
   apply L2; [lra| apply in_seq; lia].
 Qed.
+
+(* ================= BILP: minimise c.x subject to S x = b ================= *)
+Definition lin (w : list Q) (x : env) : Q := eval x (map (fun '(i, s) => ([i], s)) (combine (seq 0 (length w)) w)).
+Fixpoint viol (Sb : list (list Q * Q)) (x : env) : Q :=
+  match Sb with [] => 0 | (Sj, bj) :: r => (bj - lin Sj x) * (bj - lin Sj x) + viol r x end.
+
+Lemma eval_scaled x (f : Q -> Q) (c0 : Q) (l : list (nat * Q)) : (forall s, f s == c0 * s) ->
+  eval x (map (fun '(i, s) => ([i], f s)) l) == c0 * eval x (map (fun '(i, s) => ([i], s)) l).
+Proof. intros Hf. induction l as [|[i s] l IH]; simpl; [ring|]. rewrite IH, Hf. ring. Qed.
+
+Definition bilp_step (N : nat) (A : Q) (acc : result model) (p : list Q * Q) : result model :=
+  let '(Sj, bj) := p in
+  bind acc (fun Qm =>
+  bind (m_iadd (empty_model KQuboM) (OScalar bj)) (fun T0 =>
+  bind (add_items T0 (map (fun '(i, s) => ([i], - s)) (combine (seq 0 N) Sj))) (fun T1 =>
+  bind (m_mul T1 (OScalar A)) (fun AT =>
+  bind (m_imul T1 (OModel AT)) (fun T2 => m_iadd Qm (OModel T2)))))).
+Lemma bilp_fold_err N A l e : fold_left (bilp_step N A) l (Err e) = Err e.
+Proof. induction l as [|[Sj bj] l IH]; simpl; [reflexivity| exact IH]. Qed.
+
+Lemma bilp_fold N A : forall Sb Q0 Qf, fold_left (bilp_step N A) Sb (Ok Q0) = Ok Qf -> kd Q0 = KQuboM ->
+  (forall Sj bj, In (Sj, bj) Sb -> length Sj = N) ->
+  kd Qf = KQuboM /\ forall x, boolean_env x -> eval x (tm Qf) == eval x (tm Q0) + A * viol Sb x.
+Proof.
+  induction Sb as [|[Sj bj] Sb IH]; intros Q0 Qf H K0 Hlen.
+  - simpl in H. injection H as <-. split; [exact K0|]. intros x _. simpl. ring.
+  - cbn [fold_left] in H. unfold bilp_step at 2 in H. cbn [bind] in H.
+    destruct (m_iadd (empty_model KQuboM) (OScalar bj)) as [T0|e] eqn:E0; cbn [bind] in H; [|rewrite bilp_fold_err in H; discriminate].
+    destruct (add_items T0 _) as [T1|e] eqn:E1; cbn [bind] in H; [|rewrite bilp_fold_err in H; discriminate].
+    destruct (m_mul T1 (OScalar A)) as [AT|e] eqn:E2; cbn [bind] in H; [|rewrite bilp_fold_err in H; discriminate].
+    destruct (m_imul T1 (OModel AT)) as [T2|e] eqn:E3; cbn [bind] in H; [|rewrite bilp_fold_err in H; discriminate].
+    destruct (m_iadd Q0 (OModel T2)) as [Q1|e] eqn:E4; [|rewrite bilp_fold_err in H; discriminate].
+    assert (B0 : boolean_env (fun _ => 0)) by (intros i; left; reflexivity).
+    assert (K_T0 : kd T0 = KQuboM) by (destruct (m_iadd_eval _ _ _ _ E0 B0) as [_ K]; exact K).
+    assert (W_T0 : wf (kd T0) (tm T0)) by (apply (m_iadd_wf (empty_model KQuboM) _ _ (wf_nil KQuboM) E0)).
+    unfold add_items in E1.
+    assert (K_T1 : kd T1 = KQuboM) by (destruct (m_addall_eval (fun _ => 0) _ _ _ E1) as [_ K]; [rewrite K_T0; exact B0| congruence]).
+    assert (W_T1 : wf (kd T1) (tm T1)) by (apply (m_addall_wf _ _ _ W_T0 E1)).
+    assert (K_AT : kd AT = KQuboM) by (destruct (m_mul_eval (fun _ => 0) _ _ _ E2) as [_ K]; [rewrite K_T1; exact B0| congruence]).
+    assert (K_T2 : kd T2 = KQuboM) by (destruct (m_imul_eval (fun _ => 0) _ _ _ W_T1 E3) as [_ K]; [rewrite K_T1; exact B0| congruence]).
+    assert (K_Q1 : kd Q1 = KQuboM) by (destruct (m_iadd_eval (fun _ => 0) _ _ _ E4) as [_ K]; [rewrite K0; exact B0| congruence]).
+    destruct (IH Q1 Qf H K_Q1) as [KQ V]; [intros S' b' Hin; apply (Hlen S' b'); right; exact Hin|].
+    split; [exact KQ|]. intros x Hx. rewrite (V x Hx).
+    destruct (m_iadd_eval x _ _ _ E4) as [A4 _]; [rewrite K0; exact Hx|].
+    destruct (m_imul_eval x _ _ _ W_T1 E3) as [A3 _]; [rewrite K_T1; exact Hx|].
+    destruct (m_mul_eval x _ _ _ E2) as [A2 _]; [rewrite K_T1; exact Hx|].
+    destruct (m_addall_eval x _ _ _ E1) as [A1 _]; [rewrite K_T0; exact Hx|].
+    destruct (m_iadd_eval x _ _ _ E0) as [A0 _]; [exact Hx|].
+    rewrite A4. cbn [operand_eval]. rewrite A3. cbn [operand_eval]. rewrite A2, A1, A0. cbn [operand_eval tm empty_model eval viol].
+    rewrite (eval_scaled x Qopp (-(1)) (combine (seq 0 N) Sj)) by (intros s; ring).
+    unfold lin. rewrite (Hlen Sj bj (or_introl eq_refl)). ring.
+Qed.
+
+Theorem bilp_value c S b A B Qf : bilp_to_qubo c S b A B = Ok Qf -> (forall Sj bj, In (Sj, bj) (combine S b) -> length Sj = length c) ->
+  forall x, boolean_env x -> eval x (tm Qf) == B * lin c x + A * viol (combine S b) x.
+Proof.
+  unfold bilp_to_qubo, add_items. intros H Hlen x Hx.
+  destruct (m_addall (empty_model KQuboM) _) as [Q0|] eqn:E0; cbn [bind] in H; [|discriminate].
+  change (fold_left (bilp_step (length c) A) (combine S b) (Ok Q0) = Ok Qf) in H.
+  assert (K0 : kd Q0 = KQuboM) by (destruct (m_addall_eval (fun _ => 0) _ _ _ E0) as [_ K]; [intros i; left; reflexivity| exact K]).
+  destruct (bilp_fold (length c) A (combine S b) Q0 Qf H K0 Hlen) as [_ V]. rewrite (V x Hx).
+  destruct (m_addall_eval x _ _ _ E0) as [A0 _]; [exact Hx|]. rewrite A0. cbn [tm empty_model eval].
+  rewrite (eval_scaled x (fun ci => B * ci) B (combine (seq 0 (length c)) c)) by (intros s; ring). unfold lin. ring.
+Qed.
+
+Definition feasible (Sb : list (list Q * Q)) (x : env) : Prop := forall Sj bj, In (Sj, bj) Sb -> lin Sj x == bj.
+Definition int_rows (Sb : list (list Q * Q)) : Prop := forall Sj bj, In (Sj, bj) Sb -> is_int bj /\ Forall is_int Sj.
+Fixpoint sumabs (w : list Q) : Q := match w with [] => 0 | c :: w' => Qabs c + sumabs w' end.
+
+Lemma eval_pairs_int x (l : list (nat * Q)) : boolean_env x -> Forall (fun p => is_int (snd p)) l ->
+  is_int (eval x (map (fun '(i, s) => ([i], s)) l)).
+Proof.
+  intros Hx H. induction H as [|[i s] l Hs Hl IH]; simpl; [exists 0%Z; reflexivity|].
+  apply is_int_plus; [|exact IH]. apply is_int_mult; [exact Hs|]. apply is_int_mult; [|exists 1%Z; reflexivity].
+  destruct (Hx i) as [E|E]; [exists 0%Z| exists 1%Z]; rewrite E; reflexivity.
+Qed.
+Lemma combine_snd_Forall {A} (P : Q -> Prop) (l1 : list A) (l2 : list Q) : Forall P l2 -> Forall (fun p => P (snd p)) (combine l1 l2).
+Proof.
+  intros H. revert l1. induction H as [|s l2 Hs Hl IH]; intros l1; destruct l1; simpl; constructor; [exact Hs| apply IH].
+Qed.
+Lemma lin_int w x : boolean_env x -> Forall is_int w -> is_int (lin w x).
+Proof. intros Hx Hw. unfold lin. apply eval_pairs_int; [exact Hx|]. apply combine_snd_Forall, Hw. Qed.
+
+Lemma viol_nonneg Sb x : 0 <= viol Sb x.
+Proof. induction Sb as [|[Sj bj] r IH]; simpl; [lra|]. pose proof (sq_nonneg (bj - lin Sj x)). lra. Qed.
+Lemma viol_feasible Sb x : feasible Sb x -> viol Sb x == 0.
+Proof.
+  induction Sb as [|[Sj bj] r IH]; simpl; intros H; [reflexivity|].
+  rewrite (H Sj bj (or_introl eq_refl)), IH; [ring| intros S' b' Hin; apply H; right; exact Hin].
+Qed.
+Lemma viol_infeasible Sb x Sj bj : int_rows Sb -> boolean_env x -> In (Sj, bj) Sb -> ~ lin Sj x == bj -> 1 <= viol Sb x.
+Proof.
+  intros Hi Hx Hin Hn. induction Sb as [|[S' b'] r IH]; [destruct Hin|]. simpl.
+  pose proof (viol_nonneg r x) as Vr. pose proof (sq_nonneg (b' - lin S' x)) as Sq.
+  destruct Hin as [E|Hin].
+  - injection E as -> ->. destruct (Hi Sj bj (or_introl eq_refl)) as [Ib Is].
+    assert (Hd : is_int (bj - lin Sj x)) by (apply is_int_plus; [exact Ib| apply is_int_opp, lin_int; assumption]).
+    assert (Hnz : ~ bj - lin Sj x == 0) by (intros Hz; apply Hn; lra).
+    pose proof (int_nonzero_sq _ Hd Hnz). lra.
+  - assert (1 <= viol r x) by (apply IH; [intros S2 b2 H2; apply Hi; right; exact H2| exact Hin]). lra.
+Qed.
+
+Lemma pairs_spread x x0 (l : list (nat * Q)) : boolean_env x -> boolean_env x0 ->
+  eval x0 (map (fun '(i, s) => ([i], s)) l) - eval x (map (fun '(i, s) => ([i], s)) l) <= sumabs (map snd l).
+Proof.
+  intros Hx Hx0. induction l as [|[i s] l IH]; simpl; [lra|].
+  assert (s * (x0 i * 1) - s * (x i * 1) <= Qabs s).
+  { pose proof (Qle_Qabs s). pose proof (Qle_Qabs (- s)). rewrite Qabs_opp in H0.
+    destruct (Hx i) as [E|E], (Hx0 i) as [E0|E0]; rewrite E, E0; pose proof (Qabs_nonneg s); lra. }
+  lra.
+Qed.
+Lemma combine_snd {A} (l1 : list A) (l2 : list Q) : length l1 = length l2 -> map snd (combine l1 l2) = l2.
+Proof. revert l2. induction l1 as [|a l1 IH]; intros [|b l2] H; simpl in *; try lia; [reflexivity|]. rewrite IH by lia. reflexivity. Qed.
+Lemma lin_spread c x x0 : boolean_env x -> boolean_env x0 -> lin c x0 - lin c x <= sumabs c.
+Proof.
+  intros Hx Hx0. unfold lin. pose proof (pairs_spread x x0 (combine (seq 0 (length c)) c) Hx Hx0) as P.
+  rewrite combine_snd in P by (rewrite seq_length; reflexivity). exact P.
+Qed.
+
+(* with A > B * sum |c_i| (and integer data): every ground state is feasible and optimal, and the ground energy is B * c.x *)
+Theorem bilp_ground c S b A B Qf x0 xs : bilp_to_qubo c S b A B = Ok Qf ->
+  (forall Sj bj, In (Sj, bj) (combine S b) -> length Sj = length c) -> int_rows (combine S b) ->
+  0 < B -> B * sumabs c < A ->
+  boolean_env x0 -> feasible (combine S b) x0 ->
+  boolean_env xs -> (forall x, boolean_env x -> eval xs (tm Qf) <= eval x (tm Qf)) ->
+  feasible (combine S b) xs /\
+  (forall x, boolean_env x -> feasible (combine S b) x -> lin c xs <= lin c x) /\
+  eval xs (tm Qf) == B * lin c xs.
+Proof.
+  intros HQ Hlen Hint HB HA Hx0 Hf0 Hxs Hmin. set (Sb := combine S b) in *.
+  pose proof (bilp_value c S b A B Qf HQ Hlen) as V. fold Sb in V.
+  assert (A0 : 0 < A).
+  { assert (0 <= sumabs c) by (clear; induction c as [|q c IH]; simpl; [lra| pose proof (Qabs_nonneg q); lra]).
+    assert (0 <= B * sumabs c) by (apply Qmult_le_0_compat; lra). lra. }
+  assert (Feas : feasible Sb xs).
+  { intros Sj bj Hin. destruct (Qeq_dec (lin Sj xs) bj) as [E|Hn]; [exact E|]. exfalso.
+    pose proof (viol_infeasible Sb xs Sj bj Hint Hxs Hin Hn) as V1.
+    pose proof (Hmin x0 Hx0) as M. rewrite (V xs Hxs), (V x0 Hx0), (viol_feasible Sb x0 Hf0) in M.
+    pose proof (lin_spread c xs x0 Hxs Hx0) as Sp.
+    assert (A <= A * viol Sb xs) by (rewrite <- (Qmult_1_r A) at 1; apply Qmult_le_l; lra).
+    assert (B * (lin c x0 - lin c xs) <= B * sumabs c) by (apply Qmult_le_l; lra). lra. }
+  split; [exact Feas|]. split.
+  - intros x Hx Hfx. pose proof (Hmin x Hx) as M.
+    rewrite (V xs Hxs), (V x Hx), (viol_feasible Sb xs Feas), (viol_feasible Sb x Hfx) in M.
+    apply (Qmult_le_l _ _ B HB). lra.
+  - rewrite (V xs Hxs), (viol_feasible Sb xs Feas). ring.
+Qed.
+
+Lemma bool_sum_lin (xb : label -> bool) (l : list (nat * Q)) :
+  sumq (map (fun '(i, s) => if xb i then s else 0) l) == eval (fun i => if xb i then 1 else 0) (map (fun '(i, s) => ([i], s)) l).
+Proof. induction l as [|[i s] l IH]; simpl; [reflexivity|]. rewrite IH. destruct (xb i); ring. Qed.
+Theorem bilp_valid_iff S b (xb : label -> bool) :
+  bilp_valid S b xb = true <-> feasible (combine S b) (fun i => if xb i then 1 else 0).
+Proof.
+  unfold bilp_valid, feasible. rewrite forallb_forall. split.
+  - intros H Sj bj Hin. specialize (H (Sj, bj) Hin). cbn beta iota in H. apply Qeq_bool_iff in H.
+    rewrite fold_qplus, bool_sum_lin in H. unfold lin. lra.
+  - intros H [Sj bj] Hin. apply Qeq_bool_iff. rewrite fold_qplus, bool_sum_lin. specialize (H Sj bj Hin). unfold lin in H. lra.
+Qed.
